@@ -223,33 +223,42 @@ def zeroF : PyVal := .float (.fin 0)
 def tenthBits : Nat := 0x3FB999999999999A      -- 0.1
 def twoE20Bits : Nat := 0x4425AF1D78B58C40     -- 1e20 - (-1e20)
 
+/-- solver.py:957-963: scaling survives only with two-sided bounds and without projections -/
+def Args.scal (a : Args) : Bool := a.scaling && a.xlShape.isSome && a.xuShape.isSome && !a.hasProj
+
+/-- solver.py:969-976 -/
+def Args.effNpt (a : Args) (n : Nat) : PyVal := if a.npt.isNone then PyVal.int ((n : Int) + 1) else a.npt
+def Args.effRhobeg (a : Args) : PyVal :=
+  if a.rhobeg.isNone then PyVal.float (if a.scal then F.ofBits tenthBits else a.rhobegDefault) else a.rhobeg
+def Args.effMaxfun (a : Args) (n : Nat) : PyVal :=
+  if a.maxfun.isNone then PyVal.int (min (100 * ((n : Int) + 1)) 1000) else a.maxfun
+
+/-- state of `solve` at solver.py:1011, given the parameter list after the user's updates -/
+def mkEff (a : Args) (n : Nat) (pl : PList) : Eff :=
+  { n := n, x0shape := a.x0shape, hasH := a.hasH, hasProx := a.hasProx, lh := a.lh,
+    xl := if a.hasProj then [n] else a.xlShape.getD [n],
+    xu := if a.hasProj then [n] else a.xuShape.getD [n],
+    npt := a.effNpt n, rhobeg := a.effRhobeg, rhoend := a.rhoend, maxfun := a.effMaxfun n,
+    gap := if a.hasProj then F.ofBits twoE20Bits else if a.scal then a.gapScaled else a.gapRaw,
+    scaling := a.scal, pl := pl }
+
 /-- solver.py:945-1009 -/
 def prepare (T : Tables) (a : Args) : Prep :=
   match a.x0shape with
   | [] => .unmodelled                           -- 0-d x0: `len(x0)` raises
   | n :: _ =>
-    let scal := a.scaling && a.xlShape.isSome && a.xuShape.isSome && !a.hasProj
-    if scal && !(a.x0shape == [n] && a.xlShape == some [n] && a.xuShape == some [n]) then
+    if a.scal && !(a.x0shape == [n] && a.xlShape == some [n] && a.xuShape == some [n]) then
       .unmodelled                               -- `(x0 - shift) / scale` broadcasts or raises: not modelled
     else
-      let xl := if a.hasProj then [n] else a.xlShape.getD [n]
-      let xu := if a.hasProj then [n] else a.xuShape.getD [n]
-      let npt := if a.npt.isNone then PyVal.int ((n : Int) + 1) else a.npt
-      let rhobeg := if a.rhobeg.isNone then PyVal.float (if scal then F.ofBits tenthBits else a.rhobegDefault) else a.rhobeg
-      let maxfun := if a.maxfun.isNone then PyVal.int (min (100 * ((n : Int) + 1)) 1000) else a.maxfun
-      match pyInt npt with
+      match pyInt (a.effNpt n) with
       | .error e => .raised e
       | .ok nptI =>
-        match pyInt maxfun with
+        match pyInt (a.effMaxfun n) with
         | .error e => .raised e
         | .ok maxfunI =>
           match (PList.init T.defaults ⟨n, nptI, maxfunI, a.noise⟩).update (a.userParams.getD []) with
           | .error e => .raised e
-          | .ok pl =>
-            .ok { n := n, x0shape := a.x0shape, hasH := a.hasH, hasProx := a.hasProx, lh := a.lh, xl := xl, xu := xu,
-                  npt := npt, rhobeg := rhobeg, rhoend := a.rhoend, maxfun := maxfun,
-                  gap := if a.hasProj then F.ofBits twoE20Bits else if scal then a.gapScaled else a.gapRaw,
-                  scaling := scal, pl := pl }
+          | .ok pl => .ok (mkEff a n pl)
 
 /-! ### the checks (solver.py:1011-1083) -/
 
